@@ -152,6 +152,32 @@ def run(chk, prog):
         for b, v in consts if v)
     # the constant-false result is the arm without credentials
     ok = ok and all(not any(edge_dominates(ck, sb, e, b) for sb, e in some_edges) for b, v in consts if not v)
+    # static user list: an entry matches only if BOTH its user name and its password are equal (full string equality) to the presented ones
+    from ..flow import truth_implies
+    preds = [g for g in prog.children(ck) if any("f:username" in str(st) or "f:password" in str(st) for b in g.reachable for st in g.stmts(b))]
+    okm = len(preds) >= 1
+    whym = "" if okm else "the closure comparing a configured user with the presented credentials was not found"
+    for g in preds:
+        eqs = [c for c in g.calls if re.search(r"cmp::PartialEq::eq$", c.path or "") and re.search(r"String|str", c.full or "")]
+        def about(c, fld):
+            return any(("f:" + fld) in str(g.trace(op_base(a))) + str(a) for a in c.args if op_base(a) is not None)
+        eu = [c for c in eqs if about(c, "username")]
+        ep = [c for c in eqs if about(c, "password")]
+        facts = truth_implies(g, 0, True)
+        def implied(c):
+            if facts is None:
+                return False
+            if any(f_[0] == "call" and f_[1] is c and f_[2] for f_ in facts):
+                return True
+            return any(f_[0] == "at" and any(edge_dominates(g, sb, tt, f_[1]) for (sb, tt, ft) in bool_branch(g, c.dest[0])) for f_ in facts)
+        if not (eu and ep and any(implied(c) for c in eu) and any(implied(c) for c in ep)):
+            okm = False
+            whym = "user-name equality implied: %s, password equality implied: %s" % (bool(eu and any(implied(c) for c in eu)), bool(ep and any(implied(c) for c in ep)))
+    chk.instance("static-users", "%s:%s" % (ck.file, ck.line), "a configured user matches only on equality of both user name and password", okm, whym)
+    if not okm:
+        chk.finding("static-users", ck.key, "credential-equality", "", "%s:%s" % (ck.file, ck.line),
+                    "AuthData::check accepts a configured user without requiring full equality of both the user name and the password "
+                    "(%s): a client that knows a user name can get in with a different password" % whym)
     chk.instance("none-refused", "%s:%s" % (ck.file, ck.line), "AuthData::check: constant true only when not required; missing credentials yield false", ok)
     if not ok:
         chk.finding("none-refused", ck.key, "check-shape", "", "%s:%s" % (ck.file, ck.line),
